@@ -11,11 +11,15 @@
 //                    sequence of calls with generated parent contexts
 //   constant         AlwaysOn / AlwaysOff (direct / factory) over generated parents, ids, extras
 //   tracer_flag      a real sdk TracerProvider/Tracer with a fixed id generator and a recording
-//                    processor: sampled flag of the started span == the sampler decision
+//                    processor: sampled flag of the started span == the sampler decision (for every
+//                    parent, plain and ParentBased samplers), the sampler is asked exactly about the
+//                    span that is being started
+//   shared_threads   2..3 real threads ask ONE shared sampler about the same trace ids: every
+//                    participant gets the single-threaded answer (also built with TSan)
 //
 // Oracles: the constants of the statement (r<=0 never, r>=1 always), the metamorphic relations
 // (monotone in the ratio, monotone in the first 8 id bytes, independent of name / kind / attributes
-// / links / parent / sampler instance / earlier calls), an exact integer reference threshold
+// / links / parent / sampler instance / earlier calls / the last 8 id bytes), an exact integer reference threshold
 // floor(ratio*2^64) with a tolerance band for the floating-point computation (two-sided: inside the
 // band either answer is accepted), a call-counting delegate for ParentBased.
 #include <cmath>
@@ -28,9 +32,11 @@
 #include <memory>
 #include <stdexcept>
 #include <string>
+#include <thread>
 #include <utility>
 #include <vector>
 
+#include "opentelemetry/common/attribute_value.h"
 #include "opentelemetry/common/key_value_iterable_view.h"
 #include "opentelemetry/context/context.h"
 #include "opentelemetry/nostd/shared_ptr.h"
@@ -53,6 +59,7 @@
 #include "opentelemetry/sdk/trace/tracer_provider.h"
 #include "opentelemetry/trace/context.h"
 #include "opentelemetry/trace/default_span.h"
+#include "opentelemetry/trace/scope.h"
 #include "opentelemetry/trace/span_context.h"
 #include "opentelemetry/trace/span_context_kv_iterable_view.h"
 #include "opentelemetry/trace/span_id.h"
@@ -600,19 +607,50 @@ double usable_ratio(double r)
   return r;
 }
 
-void check_ratio_description(vh::Case &c, sdkt::Sampler &s, double r)
+// The description strings are NOT part of the property statement: their form is only classified
+// (tags "desc-..."), never judged.  The string is still read in full, so a dangling view would be
+// an ASan report.
+std::string text_of(nostd::string_view v)
 {
-  nostd::string_view d = s.GetDescription();
-  std::string text(d.data(), d.size());
+  return std::string(v.data(), v.size());
+}
+
+// true when the description has the form the pinned tree documents: TraceIdRatioBasedSampler{<the
+// clamped ratio to ~6 decimals>}
+bool ratio_description_is_documented_form(sdkt::Sampler &s, double r)
+{
+  std::string text      = text_of(s.GetDescription());
   const std::string pre = "TraceIdRatioBasedSampler{";
-  VH_CHECK(c, text.size() > pre.size() + 1 && text.compare(0, pre.size(), pre) == 0 && text.back() == '}',
-           "description of the ratio sampler is '" << vh::show(text) << "'");
+  if (!(text.size() > pre.size() + 1 && text.compare(0, pre.size(), pre) == 0 && text.back() == '}'))
+    return false;
   std::string inner = text.substr(pre.size(), text.size() - pre.size() - 1);
   char *end         = nullptr;
   double shown      = std::strtod(inner.c_str(), &end);
   double clamped    = r < 0.0 ? 0.0 : (r > 1.0 ? 1.0 : r);
-  VH_CHECK(c, end && *end == '\0' && std::fabs(shown - clamped) <= 1e-6,
-           "description '" << vh::show(text) << "' does not show the (clamped) ratio " << hexf(r));
+  return end && *end == '\0' && std::fabs(shown - clamped) <= 1e-6;
+}
+
+// a non-zero pattern to change the last 8 bytes of a trace id with; choice 0 needs no further draw
+u64 gen_tail_mask(vh::Reader &rd, const char **cls)
+{
+  switch (rd.weighted({4, 3, 2, 2}))
+  {
+    case 0:
+      *cls = "all-bits";
+      return kMax;
+    case 1:
+      *cls = "one-bit";
+      return u64(1) << rd.below(64);
+    case 2:
+    {
+      *cls  = "random";
+      u64 m = rd.u64();
+      return m ? m : 1;
+    }
+    default:
+      *cls = "one-byte";
+      return u64(0xff) << (8 * rd.below(8));
+  }
 }
 
 }  // namespace
@@ -691,19 +729,22 @@ VH_TARGET(ratio_decision, 4,
   VH_CHECK(c, threw_lo == threw_b, "the constructor and the factory disagree about ratio " << hexf(rlo));
   if (threw_lo || threw_hi)
     c.tag("ctor-rejected-out-of-range");
+  // descriptions are outside the statement: classified, not judged
   std::string dlo, dhi;
+  bool desc_ok = true;
   if (slo)
   {
-    check_ratio_description(c, *slo, rlo);
-    dlo = std::string(slo->GetDescription().data(), slo->GetDescription().size());
-    VH_CHECK(c, dlo == std::string(slo_b->GetDescription().data(), slo_b->GetDescription().size()),
-             "two samplers built with ratio " << hexf(rlo) << " describe themselves differently");
+    desc_ok = ratio_description_is_documented_form(*slo, rlo) && desc_ok;
+    dlo     = text_of(slo->GetDescription());
+    if (dlo != text_of(slo_b->GetDescription()))
+      c.tag("desc-differs-between-instances");
   }
   if (shi)
   {
-    check_ratio_description(c, *shi, rhi);
-    dhi = std::string(shi->GetDescription().data(), shi->GetDescription().size());
+    desc_ok = ratio_description_is_documented_form(*shi, rhi) && desc_ok;
+    dhi     = text_of(shi->GetDescription());
   }
+  c.tag(desc_ok ? "desc-documented-form" : "desc-other-form");
 
   struct Seen
   {
@@ -711,6 +752,14 @@ VH_TARGET(ratio_decision, 4,
     bool lo, hi;
   };
   std::vector<Seen> seen;
+  // every id of the case with what each sampler said about it (index 0: rlo, 1: rhi)
+  struct Asked
+  {
+    u64 x, tail;
+    bool has[2];
+    bool dec[2];
+  };
+  std::vector<Asked> asked;
   const api::SpanContext no_parent = api::SpanContext::GetInvalid();
   const Extras plain;
   unsigned n = 1 + rd.below(6);
@@ -819,6 +868,7 @@ VH_TARGET(ratio_decision, 4,
     c.note(" " + par.text + " " + ex.text + "\n");
 
     bool dec[2] = {false, false};
+    asked.push_back({x, tail, {slo != nullptr, shi != nullptr}, {false, false}});
     for (int w = 0; w < 2; ++w)
     {
       sdkt::Sampler *s = w == 0 ? slo.get() : shi.get();
@@ -828,6 +878,7 @@ VH_TARGET(ratio_decision, 4,
       sdkt::SamplingResult res = call(*s, no_parent, id, plain);
       bool a                   = res.IsSampled();
       dec[w]                   = a;
+      asked.back().dec[w]      = a;
       Verdict v                = reference(r, x);
       if (r <= 0.0)
         VH_CHECK(c, !a, "ratio " << hexf(r) << " (<= 0) sampled trace id " << show_id(id));
@@ -888,13 +939,47 @@ VH_TARGET(ratio_decision, 4,
                           << hex64(seen[i].x));
       }
     }
-  // the description did not change while sampling
-  if (slo)
-    VH_CHECK(c, dlo == std::string(slo->GetDescription().data(), slo->GetDescription().size()),
-             "GetDescription of ratio " << hexf(rlo) << " changed after ShouldSample calls");
-  if (shi)
-    VH_CHECK(c, dhi == std::string(shi->GetDescription().data(), shi->GetDescription().size()),
-             "GetDescription of ratio " << hexf(rhi) << " changed after ShouldSample calls");
+  // "depends only on the trace id" - and of the id, by the monotone map of the assumption, only on
+  // the 8 bytes that map: the same leading 8 bytes with ANOTHER tail get the same decision.  Drawn
+  // after everything else (an exhausted stream flips all tail bits), so that inside the tolerance
+  // band, where the reference is silent, two tails of one id prefix are tied together.
+  for (size_t i = 0; i < asked.size(); ++i)
+  {
+    const Asked &q   = asked[i];
+    const char *mcls = "all-bits";
+    u64 mask         = kMax;
+    if (!rd.exhausted())
+      mask = gen_tail_mask(rd, &mcls);
+    else if (i % 2)
+    {
+      // nothing left to draw from: alternate all-bits with one bit whose position follows the id
+      mask = u64(1) << ((q.x + 7 * i) % 64);
+      mcls = "one-bit";
+    }
+    u64 tail2        = q.tail ^ mask;
+    api::TraceId id2 = make_trace_id(q.x, tail2);
+    c.note("tail2 " + show_id(id2) + " [" + mcls + "]\n");
+    c.tag(std::string("tail-pair-") + mcls);
+    bool in_band = false;
+    for (int w = 0; w < 2; ++w)
+    {
+      sdkt::Sampler *s = w == 0 ? slo.get() : shi.get();
+      double r         = w == 0 ? rlo : rhi;
+      if (!q.has[w])
+        continue;
+      in_band    = in_band || reference(r, q.x) == kEither;
+      bool again = call(*s, no_parent, id2, plain).IsSampled();
+      VH_CHECK(c, again == q.dec[w],
+               "ratio " << hexf(r) << ": trace id " << show_id(make_trace_id(q.x, q.tail)) << " is "
+                        << (q.dec[w] ? "sampled" : "dropped") << " but " << show_id(id2)
+                        << ", which differs only in the last 8 bytes, is " << (again ? "sampled" : "dropped"));
+    }
+    if (in_band)
+      c.tag("tail-pair-in-band");
+  }
+  // the description did not change while sampling (outside the statement: a tag, not a verdict)
+  if ((slo && dlo != text_of(slo->GetDescription())) || (shi && dhi != text_of(shi->GetDescription())))
+    c.tag("desc-changed-after-calls");
 }
 
 // ================================================================================================
@@ -934,8 +1019,12 @@ VH_TARGET(ratio_sweep, 2,
   u64 centre  = rd.coin() ? boundary_of(rhi) : boundary_of(rlo);
   unsigned j  = static_cast<unsigned>(rd.weighted({6, 2, 2, 2, 1, 1, 1, 1, 1, 1, 1, 1, 1, 1, 1}));
   u64 tail    = rd.coin() ? rd.u64() : 1;
+  // every point of the sweep is asked a second time with other last 8 bytes (last draw of the case)
+  const char *mcls = "all-bits";
+  u64 tail2        = tail ^ gen_tail_mask(rd, &mcls);
   c.note("sweep ratios " + hexf(rlo) + " " + hexf(rhi) + " centre=" + hex64(centre) + " step=2^" +
-         std::to_string(j) + " tail=" + hex64(tail) + "\n");
+         std::to_string(j) + " tail=" + hex64(tail) + " tail2=" + hex64(tail2) + "\n");
+  c.tag(std::string("tail-pair-") + mcls);
   c.tag(std::string("ratio-") + g1.cls);
   c.tag("step-2^" + std::to_string(j));
   const api::SpanContext no_parent = api::SpanContext::GetInvalid();
@@ -952,6 +1041,18 @@ VH_TARGET(ratio_sweep, 2,
     api::TraceId id = make_trace_id(x, tail);
     bool a = call(*slo, no_parent, id, plain).IsSampled();
     bool b = call(*shi, no_parent, id, plain).IsSampled();
+    {
+      // same leading 8 bytes, other tail: same decision (this is what ties the flip point down)
+      api::TraceId id2 = make_trace_id(x, tail2);
+      bool a2          = call(*slo, no_parent, id2, plain).IsSampled();
+      bool b2          = call(*shi, no_parent, id2, plain).IsSampled();
+      VH_CHECK(c, a2 == a, "ratio " << hexf(rlo) << ": trace ids " << show_id(id) << " and " << show_id(id2)
+                                    << " differ only in the last 8 bytes but are " << (a ? "sampled" : "dropped")
+                                    << " / " << (a2 ? "sampled" : "dropped"));
+      VH_CHECK(c, b2 == b, "ratio " << hexf(rhi) << ": trace ids " << show_id(id) << " and " << show_id(id2)
+                                    << " differ only in the last 8 bytes but are " << (b ? "sampled" : "dropped")
+                                    << " / " << (b2 ? "sampled" : "dropped"));
+    }
     for (int w = 0; w < 2; ++w)
     {
       double r  = w ? rhi : rlo;
@@ -1036,6 +1137,18 @@ Script gen_script(vh::Reader &rd)
   return s;
 }
 
+std::string show_span_id(const api::SpanId &id)
+{
+  return hexbytes(id.Id().data(), 8);
+}
+
+// canonical text of one link as a sampler sees it
+std::string link_text(const api::SpanContext &sc, size_t nattrs)
+{
+  return show_id(sc.trace_id()) + "/" + show_span_id(sc.span_id()) + "/" + std::to_string(sc.trace_flags().flags()) +
+         (sc.IsRemote() ? "/remote/" : "/local/") + std::to_string(nattrs);
+}
+
 // a delegate that counts how often it is consulted, remembers what it was asked and what it said
 class CountingSampler : public sdkt::Sampler
 {
@@ -1058,6 +1171,7 @@ public:
                                     const api::SpanContextKeyValueIterable &links) noexcept override
   {
     ++calls;
+    last_parent       = parent;
     last_parent_valid = parent.IsValid();
     last_parent_flags = parent.trace_flags().flags();
     last_id           = trace_id;
@@ -1065,6 +1179,23 @@ public:
     last_kind   = kind;
     last_nattrs = attributes.size();
     last_nlinks = links.size();
+    last_attrs.clear();
+    last_attr_visits = 0;
+    attributes.ForEachKeyValue([&](nostd::string_view k, opentelemetry::common::AttributeValue v) noexcept {
+      std::string val = "<not a string>";
+      if (nostd::holds_alternative<nostd::string_view>(v))
+        val = text_of(nostd::get<nostd::string_view>(v));
+      else if (nostd::holds_alternative<const char *>(v))
+        val = nostd::get<const char *>(v);
+      last_attrs[text_of(k)] = val;
+      ++last_attr_visits;
+      return true;
+    });
+    last_links.clear();
+    links.ForEachKeyValue([&](api::SpanContext sc, const opentelemetry::common::KeyValueIterable &a) noexcept {
+      last_links.push_back(link_text(sc, a.size()));
+      return true;
+    });
     sdkt::SamplingResult r{sdkt::Decision::DROP, nullptr, {}};
     if (inner_)
       r = inner_->ShouldSample(parent, trace_id, name, kind, attributes, links);
@@ -1086,9 +1217,13 @@ public:
 
   nostd::string_view GetDescription() const noexcept override { return "CountingSampler"; }
 
-  int calls              = 0;
-  bool last_parent_valid = false;
-  uint8_t last_parent_flags = 0;
+  int calls                    = 0;
+  api::SpanContext last_parent = api::SpanContext::GetInvalid();
+  bool last_parent_valid       = false;
+  uint8_t last_parent_flags    = 0;
+  AttrMap last_attrs;
+  size_t last_attr_visits = 0;
+  std::vector<std::string> last_links;
   api::TraceId last_id;
   std::string last_name;
   api::SpanKind last_kind = api::SpanKind::kInternal;
@@ -1103,9 +1238,51 @@ private:
   std::unique_ptr<sdkt::Sampler> inner_;
 };
 
-std::string text_of(nostd::string_view v)
+// sampler.h: "trace_id the TraceId for the new Span", "name the name of the new Span", "spanKind", the
+// attributes and the links of the span to be created.  Returns the first difference between what
+// the counting sampler was asked last and (id, extras), or "" when it was asked exactly that.
+std::string asked_mismatch(const CountingSampler &s, const api::TraceId &id, const Extras &ex)
 {
-  return std::string(v.data(), v.size());
+  if (!(s.last_id == id))
+    return "trace id " + show_id(s.last_id) + " instead of " + show_id(id);
+  if (s.last_name != ex.name)
+    return "name '" + vh::show(s.last_name.substr(0, 20)) + "'[" + std::to_string(s.last_name.size()) + "] instead of '" +
+           vh::show(ex.name.substr(0, 20)) + "'[" + std::to_string(ex.name.size()) + "]";
+  if (s.last_kind != ex.kind)
+    return "span kind " + std::to_string(static_cast<int>(s.last_kind)) + " instead of " +
+           std::to_string(static_cast<int>(ex.kind));
+  if (s.last_nattrs != ex.attrs.size() || s.last_attr_visits != ex.attrs.size() || s.last_attrs != ex.attrs)
+    return std::to_string(s.last_nattrs) + " attribute(s) (" + std::to_string(s.last_attr_visits) +
+           " visited) that are not the " + std::to_string(ex.attrs.size()) + " of the span";
+  if (s.last_nlinks != ex.links.size() || s.last_links.size() != ex.links.size())
+    return std::to_string(s.last_nlinks) + " link(s) (" + std::to_string(s.last_links.size()) + " visited) instead of " +
+           std::to_string(ex.links.size());
+  for (size_t i = 0; i < ex.links.size(); ++i)
+  {
+    std::string want = link_text(ex.links[i].first, ex.links[i].second.size());
+    if (s.last_links[i] != want)
+      return "link " + std::to_string(i) + " " + s.last_links[i] + " instead of " + want;
+  }
+  return "";
+}
+
+// sampler.h: "parent_context a const reference to the SpanContext of a parent Span".  Returns the
+// first difference between the parent the sampler was shown and the generated valid parent.
+std::string parent_mismatch(const api::SpanContext &got, const GenParent &par)
+{
+  if (!got.IsValid())
+    return "an invalid parent context";
+  if (!(got.trace_id() == par.ctx.trace_id()))
+    return "parent trace id " + show_id(got.trace_id());
+  if (!(got.span_id() == par.ctx.span_id()))
+    return "parent span id " + show_span_id(got.span_id()) + " instead of " + show_span_id(par.ctx.span_id());
+  if (got.trace_flags().flags() != par.ctx.trace_flags().flags())
+    return "parent flags " + std::to_string(got.trace_flags().flags());
+  if (got.IsRemote() != par.ctx.IsRemote())
+    return std::string("a ") + (got.IsRemote() ? "remote" : "local") + " parent";
+  if (header_of(got.trace_state()) != par.ts_header)
+    return "parent trace state '" + vh::show(header_of(got.trace_state())) + "'";
+  return "";
 }
 
 // ParentBased around `delegate`, built directly or through the factory, possibly nested
@@ -1142,12 +1319,13 @@ VH_TARGET(parent_based, 4,
                                                                        : (script.mode == 2 ? "AlwaysOff" : "ratio"))));
   if (depth > 1)
     c.tag("nested");
+  // the description is outside the statement: classified, not judged
   std::string desc0 = text_of(pb->GetDescription());
   {
     std::string expect = "CountingSampler";
     for (unsigned i = 0; i < depth; ++i)
       expect = "ParentBased{" + expect + "}";
-    VH_CHECK(c, desc0 == expect, "description is '" << vh::show(desc0) << "', documented form is " << expect);
+    c.tag(desc0 == expect ? "desc-documented-form" : "desc-other-form");
   }
 
   unsigned ncalls = 1 + rd.below(6);
@@ -1205,12 +1383,15 @@ VH_TARGET(parent_based, 4,
       VH_CHECK(c, consulted == 1,
                "the delegate was consulted " << consulted << " time(s) for a span without a valid parent ("
                                              << par.text << ")");
-      VH_CHECK(c, delegate->last_id == id && delegate->last_name == ex.name && delegate->last_kind == ex.kind &&
-                      delegate->last_nattrs == ex.attrs.size() && delegate->last_nlinks == ex.links.size() &&
-                      !delegate->last_parent_valid,
-               "the delegate was asked about something else: id " << show_id(delegate->last_id) << " name '"
-                                                                   << vh::show(delegate->last_name.substr(0, 20))
-                                                                   << "' for " << par.text << " id=" << show_id(id));
+      {
+        // the root sampler is consulted about THIS span: id, name, kind, attribute and link contents
+        std::string diff = asked_mismatch(*delegate, id, ex);
+        if (diff.empty() && delegate->last_parent_valid)
+          diff = "a valid parent";
+        VH_CHECK(c, diff.empty(), "the delegate was asked about something else: " << diff << " (call " << par.text
+                                                                                 << " id=" << show_id(id) << " " << ex.text
+                                                                                 << ")");
+      }
       VH_CHECK(c, res.decision == delegate->ans_decision,
                "the delegate answered " << dname(delegate->ans_decision) << " for a root span, ParentBased returned "
                                         << dname(res.decision));
@@ -1225,7 +1406,8 @@ VH_TARGET(parent_based, 4,
       c.tag(std::string("root-") + dname(res.decision));
     }
   }
-  VH_CHECK(c, text_of(pb->GetDescription()) == desc0, "GetDescription changed after ShouldSample calls");
+  if (text_of(pb->GetDescription()) != desc0)
+    c.tag("desc-changed-after-calls");
 }
 
 // ================================================================================================
@@ -1246,7 +1428,8 @@ VH_TARGET(constant, 3,
   c.tag(on ? "always-on" : "always-off");
   const sdkt::Decision want = on ? sdkt::Decision::RECORD_AND_SAMPLE : sdkt::Decision::DROP;
   const std::string wdesc   = on ? "AlwaysOnSampler" : "AlwaysOffSampler";
-  VH_CHECK(c, text_of(s->GetDescription()) == wdesc, "description is '" << vh::show(text_of(s->GetDescription())) << "'");
+  // the description is outside the statement: classified, not judged
+  c.tag(text_of(s->GetDescription()) == wdesc ? "desc-documented-form" : "desc-other-form");
   unsigned ncalls = 1 + rd.below(8);
   for (unsigned i = 0; i < ncalls && (i == 0 || !rd.exhausted()); ++i)
   {
@@ -1258,11 +1441,13 @@ VH_TARGET(constant, 3,
     sdkt::SamplingResult res = call(*s, par.ctx, id, ex);
     VH_CHECK(c, res.decision == want, wdesc << " answered " << dname(res.decision) << " for " << par.text << " id="
                                             << show_id(id) << " " << ex.text);
-    // not part of "constant", but documented: the span keeps its parent's trace state.  A null
-    // result makes the Tracer fall back to the parent's; for an invalid context that still carries
-    // a trace state both "empty" and "that one" are accepted.
+    // not part of "constant" (recorded as an explicit assumption in c12.py): a sampler that does
+    // not mean to change the trace state hands back the parent's, so that all participants of a
+    // trace keep seeing it.  A null result makes the Tracer fall back to the parent's; for an
+    // invalid context that still carries a trace state both "empty" and "that one" are accepted.
     if (res.trace_state)
     {
+      c.tag("trace-state-returned");
       std::string got = res.trace_state->ToHeader();
       VH_CHECK(c, got == par.ts_header || (!par.valid && got.empty()),
                wdesc << " returned trace state '" << vh::show(got) << "' for " << par.text << " ts='" << par.ts_header
@@ -1272,7 +1457,8 @@ VH_TARGET(constant, 3,
     if ((par.valid && psampled != on) || (!par.valid && psampled))
       c.nontrivial = true;
   }
-  VH_CHECK(c, text_of(s->GetDescription()) == wdesc, "GetDescription changed after ShouldSample calls");
+  if (text_of(s->GetDescription()) != wdesc)
+    c.tag("desc-changed-after-calls");
 }
 
 // ================================================================================================
@@ -1401,8 +1587,9 @@ std::unique_ptr<sdkt::Sampler> build(const SamplerSpec &sp, std::shared_ptr<Coun
 VH_TARGET(tracer_flag, 4,
           "a case is non-trivial when it starts a root span whose trace id lies within +-4096 of the ratio "
           "threshold, or a root span under a scripted RECORD_ONLY / DROP delegate, or a child span under "
-          "ParentBased whose parent's sampled bit differs from the root sampler's answer; distinct = "
-          "distinct (sampler, span list) text")
+          "ParentBased whose parent's sampled bit differs from the root sampler's answer, or a child span "
+          "under a plain (non-ParentBased) sampler whose decision differs from the parent's sampled bit; "
+          "distinct = distinct (sampler, span list) text")
 {
   vh::Reader &rd = c.rd;
   SamplerSpec sp;
@@ -1472,13 +1659,24 @@ VH_TARGET(tracer_flag, 4,
     api::StartSpanOptions opts;
     opts.kind        = ex.kind;
     const char *how  = "default";
-    unsigned variant = rd.below(child ? 2 : 5);
+    // one byte: variant = byte % n as before; the top quarter of the byte range selects, for a
+    // child, the third way of naming a parent (the active span of the calling thread)
+    unsigned vbyte   = rd.u8();
+    unsigned variant = vbyte % (child ? 2u : 5u);
+    if (child && vbyte >= 192)
+      variant = 2;
+    nostd::shared_ptr<api::Span> active_parent;
     if (child)
     {
       if (variant == 0)
       {
         opts.parent = par.ctx;
         how         = "parent=SpanContext";
+      }
+      else if (variant == 2)
+      {
+        active_parent = nostd::shared_ptr<api::Span>(new api::DefaultSpan(par.ctx));
+        how           = "parent=active span";
       }
       else
       {
@@ -1517,6 +1715,8 @@ VH_TARGET(tracer_flag, 4,
     c.note(std::string(child ? "child " : "root ") + how + " " + par.text + " root-id=" + show_id(root_id) + " " +
            ex.text + "\n");
     c.tag(child ? (std::string("child-") + par.cls) : (std::string("root-") + how));
+    if (child)
+      c.tag(std::string("child-") + how);
 
     // expected decision from the independent instance
     const api::SpanContext seen_parent = child ? par.ctx : api::SpanContext::GetInvalid();
@@ -1546,7 +1746,12 @@ VH_TARGET(tracer_flag, 4,
       std::string nbuf = ex.name + "#";
       opentelemetry::common::KeyValueIterableView<AttrMap> av(ex.attrs);
       api::SpanContextKeyValueIterableView<Links> lv(ex.links);
+      // the scope (if any) lives exactly as long as the StartSpan call: nothing leaks into the next span
+      std::unique_ptr<api::Scope> scope;
+      if (active_parent)
+        scope.reset(new api::Scope(active_parent));
       span = tracer->StartSpan(nostd::string_view(nbuf.data(), ex.name.size()), av, lv, opts);
+      scope.reset();
       std::fill(nbuf.begin(), nbuf.end(), '\xdd');
     }
     VH_CHECK(c, span != nullptr, "StartSpan returned null");
@@ -1584,6 +1789,10 @@ VH_TARGET(tracer_flag, 4,
         VH_CHECK(c, counting->last_id == root_id && !counting->last_parent_valid,
                  "the root sampler was asked about trace id " << show_id(counting->last_id) << ", the span got "
                                                               << show_id(root_id));
+        // ... and about this span's name, kind, attributes and links (sampler.h)
+        std::string diff = asked_mismatch(*counting, root_id, ex);
+        VH_CHECK(c, diff.empty(), "root span (" << how << ", " << ex.text << ") under " << sp.text
+                                                << ": the sampler was asked about " << diff);
         if (sp.script.mode == 0 && sp.script.decision != sdkt::Decision::RECORD_AND_SAMPLE)
         {
           c.nontrivial = true;
@@ -1617,16 +1826,51 @@ VH_TARGET(tracer_flag, 4,
     }
     else
     {
-      // a plain sampler decides about children too; the flag must be set whenever it samples.  (An
-      // unsampled decision under a SAMPLED parent is the business of property C05, not checked here.)
-      VH_CHECK(c, !want_sampled || sc.IsSampled(), "child of " << par.text << " under " << sp.text << ": decision "
-                                                               << dname(want.decision) << " but sampled flag 0");
-      if (!par.ctx.IsSampled())
-        VH_CHECK(c, sc.IsSampled() == want_sampled,
-                 "child of unsampled " << par.text << " under " << sp.text << ": decision " << dname(want.decision)
-                                       << " but sampled flag " << sc.IsSampled());
+      // a plain sampler decides about children too, whatever the parent's flag says: "sampled flag of
+      // spans started through a Tracer" is the sampler's decision for EVERY parent
+      VH_CHECK(c, sc.IsSampled() == want_sampled,
+               "child of " << par.text << " under " << sp.text << ": decision " << dname(want.decision)
+                           << " but sampled flag " << sc.IsSampled());
+      if (par.ctx.IsSampled() != want_sampled)
+      {
+        c.nontrivial = true;
+        c.tag(want_sampled ? "child-plain-sampled-under-unsampled-parent" : "child-plain-unsampled-under-sampled-parent");
+      }
       if (counting)
+      {
         VH_CHECK(c, consulted == 1, "the sampler was consulted " << consulted << " time(s) for one span");
+        // sampler.h: asked about the new span (the parent's trace id, its own name / kind / attributes /
+        // links) and shown the parent exactly as the caller named it (flags, remote, trace state)
+        std::string diff = asked_mismatch(*counting, par.ctx.trace_id(), ex);
+        if (diff.empty())
+          diff = parent_mismatch(counting->last_parent, par);
+        VH_CHECK(c, diff.empty(), "child (" << how << ", " << ex.text << ") of " << par.text << " under " << sp.text
+                                            << ": the sampler was asked about " << diff);
+        c.tag("child-plain-arguments-checked");
+      }
+    }
+    // sampler.h: "The tracestate used by the span" - an explicit answer of a scripted sampler is the
+    // span's trace state; a sampler that answers null (or, by the assumption on the constant / ratio
+    // samplers, the parent's) leaves a child with the parent's trace state.  For a root span without
+    // a scripted answer both the empty state and that of an explicitly named invalid parent pass.
+    {
+      bool scripted_ts   = sp.kind == 3 && sp.script.mode == 0 && sp.script.has_ts && !(sp.parent_based && child);
+      std::string got_ts = header_of(sc.trace_state());
+      if (scripted_ts)
+      {
+        VH_CHECK(c, got_ts == sp.script.ts_header, (child ? "child" : "root") << " span under " << sp.text
+                                                                              << " has trace state '" << vh::show(got_ts)
+                                                                              << "', the sampler answered '"
+                                                                              << sp.script.ts_header << "'");
+        c.tag("span-trace-state-from-sampler");
+      }
+      else if (child)
+        VH_CHECK(c, got_ts == par.ts_header, "child of " << par.text << " under " << sp.text << " has trace state '"
+                                                         << vh::show(got_ts) << "'");
+      else
+        VH_CHECK(c, got_ts.empty() || got_ts == par.ts_header,
+                 "root span (" << how << ", " << par.text << " ts='" << par.ts_header << "') under " << sp.text
+                               << " has trace state '" << vh::show(got_ts) << "'");
     }
     // sampler.h: DROP => not recording; RECORD_ONLY / RECORD_AND_SAMPLE => recording
     VH_CHECK(c, span->IsRecording() == want_recording, "decision " << dname(want.decision) << " but IsRecording() is "
@@ -1649,4 +1893,125 @@ VH_TARGET(tracer_flag, 4,
     }
     span = nostd::shared_ptr<api::Span>();
   }
+}
+
+// ================================================================================================
+// "all participants in a trace agree": the samplers of a TracerProvider are shared by every thread
+// that starts spans.  2..3 real threads ask ONE sampler instance about the same list of (parent,
+// trace id) questions, each in its own order and several rounds; every answer must be the one an
+// independently built instance gave single-threaded before.  The verdict does not depend on the
+// interleaving (the expected answers are fixed before the threads start); the interleaving only
+// decides whether a defect shows.  The same target is also built with TSan.
+VH_TARGET(shared_threads, 6,
+          "2..3 real threads ask one shared sampler (ratio / ParentBased{ratio} / AlwaysOn / AlwaysOff / "
+          "ParentBased{AlwaysOn|AlwaysOff}) about the same questions in different orders; non-trivial when the "
+          "expected answers contain both a sampled and a dropped one (so that an answer leaking from one "
+          "participant to another would be visible); distinct = distinct (sampler, question list, thread "
+          "plan) text")
+{
+  vh::Reader &rd = c.rd;
+  SamplerSpec sp;
+  sp.kind         = static_cast<int>(rd.weighted({6, 1, 1}));
+  sp.parent_based = rd.coin();
+  if (sp.kind == 0)
+  {
+    sp.ratio = usable_ratio(gen_ratio(rd).r);
+    if (std::isnan(sp.ratio))
+      return;
+    sp.text = "ratio " + hexf(sp.ratio);
+  }
+  else
+    sp.text = sp.kind == 1 ? "AlwaysOn" : "AlwaysOff";
+  if (sp.parent_based)
+    sp.text = "ParentBased{" + sp.text + "}";
+  c.note("shared sampler " + sp.text + "\n");
+  c.tag(std::string(sp.parent_based ? "pb-" : "plain-") + (sp.kind == 0 ? "ratio" : sp.kind == 1 ? "on" : "off"));
+
+  std::shared_ptr<CountingSampler> unused;
+  std::unique_ptr<sdkt::Sampler> shared = build(sp, &unused);
+  std::unique_ptr<sdkt::Sampler> oracle = build(sp, &unused);
+
+  struct Question
+  {
+    api::SpanContext parent = api::SpanContext::GetInvalid();
+    api::TraceId id;
+    bool want = false;
+  };
+  std::vector<Question> qs;
+  const Extras plain;
+  u64 t           = boundary_of(sp.kind == 0 ? sp.ratio : 0.5);
+  unsigned nt     = 2 + rd.below(2);
+  unsigned rounds = 1 + rd.below(8);
+  unsigned nq     = 2 + rd.below(15);
+  bool any_sampled = false, any_dropped = false;
+  for (unsigned i = 0; i < nq; ++i)
+  {
+    Question q;
+    u64 x = 0;
+    switch (rd.weighted({5, 3, 2}))
+    {
+      case 0:
+        x = sat_add(t, rd.range(-40, 40));
+        break;
+      case 1:
+        x = sat_add(t, static_cast<int>(rd.below(8193)) - 4096);
+        break;
+      default:
+        x = rd.u64();
+        break;
+    }
+    q.id = make_trace_id(x, 1 + rd.below(255));
+    if (sp.parent_based || rd.chance(30))
+    {
+      GenParent par = gen_parent(rd, 60, 0);
+      q.parent      = par.ctx;
+      if (par.valid && rd.chance(80))
+        q.id = par.ctx.trace_id();
+      c.note("q " + par.text + " id=" + show_id(q.id) + "\n");
+    }
+    else
+      c.note("q root id=" + show_id(q.id) + "\n");
+    q.want = call(*oracle, q.parent, q.id, plain).IsSampled();
+    (q.want ? any_sampled : any_dropped) = true;
+    qs.push_back(q);
+  }
+  std::vector<unsigned> start(nt), stride(nt);
+  for (unsigned k = 0; k < nt; ++k)
+  {
+    start[k]  = rd.below(static_cast<uint32_t>(qs.size()));
+    stride[k] = rd.coin() ? 1 : static_cast<unsigned>(qs.size()) - 1;  // forwards / backwards
+  }
+  c.note("threads=" + std::to_string(nt) + " rounds=" + std::to_string(rounds) + "\n");
+  c.tag("threads-" + std::to_string(nt));
+  c.nontrivial = any_sampled && any_dropped;
+  if (c.nontrivial)
+    c.tag("mixed-answers");
+
+  std::vector<std::string> errors(nt);
+  std::vector<std::thread> ths;
+  for (unsigned k = 0; k < nt; ++k)
+    ths.emplace_back([&, k]() {
+      for (unsigned r = 0; r < rounds && errors[k].empty(); ++r)
+        for (size_t i = 0; i < qs.size(); ++i)
+        {
+          const Question &q = qs[(start[k] + i * stride[k]) % qs.size()];
+          bool got          = call(*shared, q.parent, q.id, plain).IsSampled();
+          if (got != q.want)
+          {
+            errors[k] = "thread " + std::to_string(k) + ", round " + std::to_string(r) + ": trace id " +
+                        show_id(q.id) + " is " + (got ? "sampled" : "dropped") + " on the shared " + sp.text +
+                        " but " + (q.want ? "sampled" : "dropped") + " when asked single-threaded";
+            break;
+          }
+        }
+    });
+  for (auto &th : ths)
+    th.join();
+  for (auto &e : errors)
+    VH_CHECK(c, e.empty(), e);
+  // and single-threaded again afterwards, on the instance the threads used
+  for (const Question &q : qs)
+    VH_CHECK(c, call(*shared, q.parent, q.id, plain).IsSampled() == q.want,
+             "after the threads finished the shared " << sp.text << " answers differently about trace id "
+                                                      << show_id(q.id));
 }
